@@ -4,8 +4,8 @@ T2: the extracted model (coq/C15/RangesModel.v) against sc_ranges_compute / sc_r
 sc_ranges_statistics of the freshly built library: exhaustively for P <= 7 (all 0/1 vectors, all own ranks,
 budgets 1..4) and for all families of vectors with P <= 3 (P = 4 in the thorough tier), random up to P = 200;
 a P-rank run is emulated in one process (compute per rank, maxima and gather in the harness, decode per rank);
-sc_ranges_adaptive itself runs under OpenMPI for a few P.  An independent Python oracle restates the property
-on every implementation output."""
+sc_ranges_adaptive + sc_ranges_decode themselves run on the simulated MPI (tools/simmpi, all schedule adversaries)
+and under OpenMPI for a few P.  An independent Python oracle restates the property on every implementation output."""
 import os, sys, json, itertools
 import vlib
 
@@ -48,8 +48,12 @@ def check_compute(v, rank, nr, n, ranges):
     for (a, b), (c, d) in zip(f, f[1:]):
         if not b + 1 < c:
             return "ranges %s are not sorted and separated by a non-member" % f
-        if any(j in peers for j in range(b + 1, c)):
+        if any(v[j] != 0 and j != rank for j in range(b + 1, c)):
             return "a peer lies between the ranges (%d,%d) and (%d,%d)" % (a, b, c, d)
+    pset = set(peers)
+    for lo, hi in f:
+        if lo not in pset or hi not in pset:
+            return "range (%d,%d) does not begin and end at a peer: the gap next to it is not a whole run of non-peers" % (lo, hi)
     cov = set(j for lo, hi in f for j in range(lo, hi + 1))
     miss = [p for p in peers if p not in cov]
     if miss:
